@@ -275,7 +275,11 @@ func c18KeepAlive(e *Env) {
 		}
 	}
 	e.R.Check(okReset, rule, "net/monitor/inactivity.KeepAlive.OnInactive:pong-generation-check", e.fpos(f), "a pong resets the failure count only if its ping's generation is still the current one", "a late pong of a superseded ping can be credited to a later ping")
-	// one keep-alive state per connection: NewKeepAlive is called inside the per-connection factory closure
+	checkKeepAlivePerConn(e, rule)
+}
+
+// checkKeepAlivePerConn: one keep-alive state per connection – NewKeepAlive is called inside the per-connection factory closure.
+func checkKeepAlivePerConn(e *Env, rule string) {
 	n, okPer := 0, true
 	for _, g := range e.P.SrcFuncs(false) {
 		for range core.CallsNamed(g, "net/monitor/inactivity.NewKeepAlive") {
